@@ -83,17 +83,33 @@ def pool_api(repo, chk):
 
 # -- 2 ------------------------------------------------------------------------------------
 def _worker_root(repo):
-    fn = repo.func(CR, 'mixed_rank_graph')
-    subs = [c for c in calls(fn) if isinstance(c.func, ast.Attribute) and c.func.attr in ORDERED_API | UNORDERED_API and len(c.args) >= 2]
+    """functions whose code runs in the workers: resolved from the pool submission of the path summary of mixed_rank_graph
+    (a local closure, functools.partial(f, ...), a lambda around f, or f itself)"""
+    from .common import mrg_model
+    M = mrg_model(repo)
+    fn = M.fn
     roots = []
-    for c in subs:
-        a = c.args[0]
+    cands = []
+    for p in M.paths:
+        sub = M.submission(p) if p.res.unknown is None else None
+        if sub is not None:
+            cands.append(sub.args[0])
+    if not cands:
+        cands = [c.args[0] for c in calls(fn) if isinstance(c.func, ast.Attribute) and c.func.attr in ORDERED_API | UNORDERED_API and len(c.args) >= 2]
+    for a in cands:
+        tgt = None
         if isinstance(a, ast.Name):
             q = fn.qualname + '.' + a.id
-            if q in fn.module.funcs:
-                roots.append(fn.module.funcs[q])
-            elif a.id in fn.module.funcs:
-                roots.append(fn.module.funcs[a.id])
+            tgt = fn.module.funcs.get(q) or fn.module.funcs.get(a.id) or repo.find_func(fn.module.dotted(a) or '')
+        elif isinstance(a, ast.Call) and fn.module.dotted(a.func) == 'functools.partial' and a.args:
+            tgt = repo.find_func(fn.module.dotted(a.args[0]) or '')       # a partial adds no code of its own
+        elif isinstance(a, ast.Lambda):
+            inner = [c for c in ast.walk(a.body) if isinstance(c, ast.Call)]
+            tgt = repo.find_func(fn.module.dotted(inner[0].func) or '') if inner else None
+        elif isinstance(a, ast.Attribute):
+            tgt = repo.find_func(fn.module.dotted(a) or '')
+        if tgt is not None and tgt not in roots:
+            roots.append(tgt)
     return roots
 
 
